@@ -5,25 +5,34 @@ ID = "C06"
 LEAN_PROPS = "Tahoe.Props.C06"
 DRIVER = "C06"
 GENERATED = []
-SOURCES = ["src/allmydata/immutable/upload.py", "src/allmydata/immutable/encode.py",
+SOURCES = ["src/allmydata/immutable/upload.py", "src/allmydata/immutable/encode.py", "src/allmydata/immutable/layout.py",
            "src/allmydata/util/happinessutil.py", "src/allmydata/storage/immutable.py"]
 DESIGN_REF = "DESIGN.md §2 C06"
-TECHNIQUE = ("Lean 4 invariant proof over a model of the upload decision (selector test, Encoder._remove_shareholder over any "
-             "failure script, close phase) for an abstract happiness function; correspondence of recorded failure scripts from real "
-             "uploads on the in-process grid; monitor recomputing happiness from the share files on disk")
-LEVEL_TEXT = ("Proved for every failure script and every happiness function: success implies the final layout (placed-and-closed + "
-              "pre-existing) has happiness >= threshold, every placed share was closed with no failed write, and on the unhappiness "
-              "error every bucket writer was aborted while anything made visible is a complete share. Tied to the code by replaying, in "
-              "the model, the landlords / servermap / failure sequence recorded from real uploads with injected faults. Partial: the "
-              "multi-round server-selection loop is modelled only through its final test; storage semantics of abort/close is C22.")
-LEVEL_NOTE = ("Lean kernel + standard axioms; happiness function abstract in the theorems (C08 proves it is the maximum matching); "
-              "hand-written model; real uploads run on harness/grid.py with fault hooks.")
+TECHNIQUE = ("Lean 4 invariant proofs over a model of the upload decision: selector test, CHKUploader.set_shareholders (with its "
+             "assertion), the Encoder push phase as a state machine over shareholder-loss events (_remove_shareholder recomputing "
+             "C08's servers_of_happiness on the whole remaining servermap), WriteBucketProxy.close = flush + remote close, answers "
+             "after the error, and UploadResults as a function of the surviving landlords; correspondence of recorded failure scripts "
+             "from real uploads on the in-process grid (outcome, placed, servermap, UploadResults maps/counters, visible shares); "
+             "monitor recomputing happiness from the share files on disk")
+LEVEL_TEXT = ("Proved for every pre-existing layout, allocation, failure script and answer order: success implies a matching of >= happy "
+              "(server, share) pairs among pre-existing shares and surviving landlords (C08's happiness function, reused), every share "
+              "UploadResults reports is a surviving landlord on the named server, closed, with no failed write; the unhappiness error is "
+              "raised iff the surviving set cannot meet the threshold (under the dict / no-double-allocation hypotheses); on the error every "
+              "bucket writer was aborted and every share whose remote close may have been issued received all its bytes. Tied to the "
+              "code by replaying, in the model, the true set_shareholders inputs and the failure sequence recorded from real uploads with "
+              "injected faults. Partial: the multi-round server-selection loop is modelled only through its result; storage semantics "
+              "of abort/close is C22.")
+LEVEL_NOTE = ("Lean kernel + standard axioms; the happiness function is C08's model of servers_of_happiness (proved there to be the "
+              "maximum matching number), abstract in the bookkeeping theorems; hand-written model; real uploads run on harness/grid.py "
+              "with fault hooks.")
 RULE = ("seeded grids (1..8 servers, read-only/full/erroring servers, pre-existing shares from an earlier upload) x k/happy/N x file sizes; "
         "faults = error on the i-th call of allocate_buckets/write/close per server. A case is one upload; distinct = distinct "
         "(grid shape, fault script, outcome); non-trivial = at least one fault fired or a pre-existing share was found or the outcome is unhappy.")
-TRUSTED = ["harness/grid.py fault hooks", "lean/Drv/C06.lean computes happiness with its own maximum-matching (Kuhn) implementation"]
-ASSUMPTIONS = ["bucket writer abort deletes the incoming share and close makes it visible (C22)",
-               "the happiness function used by the code is the one passed to the model (cross-checked: driver's matching vs happinessutil on every case)"]
+TRUSTED = ["harness/grid.py fault hooks",
+           "observation hooks in harness/props/c06.py (CHKUploader.set_shareholders, Encoder.set_shareholders/_remove_shareholder, "
+           "Tahoe2ServerSelector._failed, WriteBucketProxy._actually_write): pass-through wrappers"]
+ASSUMPTIONS = ["bucket writer abort deletes the incoming share, only close makes it visible (C22)",
+               "the happiness function of the code is the one of the model (cross-checked: driver's soh vs happinessutil on every case, and C08)"]
 
 
 def max_matching(sharemap):
@@ -78,6 +87,10 @@ def gen_scenario(rng):
     s.broken = sorted(i for i in range(s.num_servers) if rng.random() < 0.07)
     s.policy = rng.choice(["random", "random", "fifo", "lifo"])
     s.seed = rng.randrange(1 << 30)
+    # WriteBucketProxy's batch_size (constructor parameter, default 1 MB): with the default every write of a small
+    # share is batched into the final flush of close(); a small batch makes put_header/put_block/put_*_hashes
+    # issue remote writes, so that faults hit the write phases as well
+    s.batch = rng.choice([None, None, 40, 200])
     if rng.random() < 0.3:
         # duplicate-holder family: an earlier upload left every share on few servers; the new upload spreads
         # duplicates over the servers that joined since, under a tight threshold, and one of the new holders
@@ -92,17 +105,30 @@ def gen_scenario(rng):
         news = [i for i in range(s.num_servers) if i not in s.pre_servers] or [0]
         s.faults = [(rng.choice(news), rng.choice(["write", "write", "close"]), rng.randrange(0, 4))
                     for _ in range(rng.randrange(1, 3))]
+    elif rng.random() < 0.35:
+        # push-fault family: healthy selection, then write / close faults on several servers during the transfer,
+        # threshold anywhere between loose and tight (both verdicts, losses that do and do not matter)
+        s.num_servers = rng.randrange(2, 8)
+        s.n = rng.randrange(2, 8)
+        s.k = rng.randrange(1, min(s.n, 3) + 1)
+        s.happy = rng.randrange(1, min(s.n, s.num_servers) + 1)
+        s.readonly, s.full, s.broken = [], [], []
+        s.pre_servers = sorted(i for i in range(s.num_servers) if rng.random() < 0.4) if rng.random() < 0.5 else []
+        s.batch = rng.choice([None, 40, 40, 200])
+        s.faults = [(rng.randrange(s.num_servers), rng.choice(["write", "write", "close"]),
+                     rng.randrange(0, 3 if s.batch is None else 8)) for _ in range(rng.randrange(1, 5))]
     return s
 
 
 def scenario_dict(s):
     return dict(k=s.k, happy=s.happy, n=s.n, num_servers=s.num_servers, size=s.size, maxseg=s.maxseg,
                 readonly=s.readonly, full=s.full, pre_servers=s.pre_servers, pre_delete=s.pre_delete,
-                faults=[list(f) for f in s.faults], broken=s.broken, policy=s.policy, seed=s.seed)
+                faults=[list(f) for f in s.faults], broken=s.broken, policy=s.policy, seed=s.seed, batch=s.batch)
 
 
 def scenario_from(d):
     s = Scenario()
+    s.batch = None
     s.__dict__.update(d)
     s.faults = [tuple(f) for f in s.faults]
     return s
@@ -111,17 +137,22 @@ def scenario_from(d):
 def run_scenario(ctx, s):
     import grid
     import random
-    from allmydata.immutable import upload, encode
+    from allmydata.immutable import upload, encode, layout
+    from twisted.python.failure import Failure
     from allmydata.interfaces import UploadUnhappinessError
     from allmydata.util import happinessutil
     from allmydata.util.happinessutil import merge_servers
     data = bytes((i * 7 + s.seed) % 251 for i in range(s.size))
     conv = b"c06-convergence!"
     case = scenario_dict(s)
+    batch_defaults = layout.WriteBucketProxy.__init__.__defaults__
+    assert batch_defaults == (1_000_000,), batch_defaults
     with grid.Runtime(seed=s.seed, policy=s.policy) as rt:
         g = grid.Grid(grid.fresh_dir("c06"), rt, num_servers=s.num_servers, k=s.k, happy=1, n=s.n,
                       max_segment_size=s.maxseg, readonly=())
         try:
+            if s.batch:
+                layout.WriteBucketProxy.__init__.__defaults__ = (s.batch,)
             c = g.clients[0]
             ids = {g.serverid(i): i for i in range(s.num_servers)}
             # reference shares from a fault-free twin upload (share bytes are a function of data+params)
@@ -174,11 +205,30 @@ def run_scenario(ctx, s):
             for i in s.broken:
                 g.wrappers[i].broken = True
             # instrumentation (observation only)
-            rec = {"landlords": None, "servermap": None, "removed": [], "selector_failed": None}
+            rec = {"landlords": None, "servermap": None, "removed": [], "selector_failed": None,
+                   "already": None, "alloc": None}
             orig_set = encode.Encoder.set_shareholders
             orig_rm = encode.Encoder._remove_shareholder
             orig_failed = upload.Tahoe2ServerSelector._failed
+            orig_chk_set = upload.CHKUploader.set_shareholders
+            orig_aw = layout.WriteBucketProxy._actually_write
             encs = []
+            wlog = {}     # id(WriteBucketProxy) -> did its latest remote write fail?
+
+            def chk_set(self, upload_trackers, already_serverids, encoder):
+                # the true inputs of set_shareholders (the servermap it builds shares its sets with already_serverids)
+                rec["already"] = {sh: sorted(ids[p] for p in ps) for sh, ps in already_serverids.items()}
+                rec["alloc"] = sorted((sh, ids[t.get_serverid()]) for t in upload_trackers for sh in t.buckets)
+                return orig_chk_set(self, upload_trackers, already_serverids, encoder)
+
+            def aw(self):
+                d = orig_aw(self)
+
+                def _both(res, self=self):
+                    wlog[id(self)] = isinstance(res, Failure)
+                    return res
+                d.addBoth(_both)
+                return d
 
             def set_sh(self, landlords, servermap):
                 rec["landlords"] = {sh: ids[b._server.get_serverid()] if hasattr(b, "_server") else None for sh, b in landlords.items()}
@@ -187,17 +237,22 @@ def run_scenario(ctx, s):
                 return orig_set(self, landlords, servermap)
 
             def rm(self, why, shareid, where):
-                rec["removed"].append((shareid, where))
+                kind = "f"
+                if where == "close" and shareid in self.landlords and wlog.get(id(self.landlords[shareid])):
+                    kind = "w"      # the final flush inside close() failed: the remote close was never issued
+                rec["removed"].append((shareid, where, kind))
                 return orig_rm(self, why, shareid, where)
 
             def failed(self, msg):
-                merged = merge_servers(self.peer_selector.get_sharemap_of_preexisting_shares(), self.use_trackers)
-                rec["selector_failed"] = {sh: sorted(ids[p] for p in ps) for sh, ps in merged.items()}
+                pre0 = self.peer_selector.get_sharemap_of_preexisting_shares()
+                rec["selector_failed"] = {sh: sorted(ids[p] for p in ps) for sh, ps in pre0.items()}
                 rec["selector_alloc"] = sorted((sh, ids[t.get_serverid()]) for t in self.use_trackers for sh in t.buckets)
                 return orig_failed(self, msg)
             encode.Encoder.set_shareholders = set_sh
             encode.Encoder._remove_shareholder = rm
             upload.Tahoe2ServerSelector._failed = failed
+            upload.CHKUploader.set_shareholders = chk_set
+            layout.WriteBucketProxy._actually_write = aw
             try:
                 outcome, res = None, None
                 try:
@@ -214,6 +269,8 @@ def run_scenario(ctx, s):
                 encode.Encoder.set_shareholders = orig_set
                 encode.Encoder._remove_shareholder = orig_rm
                 upload.Tahoe2ServerSelector._failed = orig_failed
+                upload.CHKUploader.set_shareholders = orig_chk_set
+                layout.WriteBucketProxy._actually_write = orig_aw
             case["fired"] = [list(f) for f in fired]
             case["outcome"] = outcome
             # ---------------- monitor (from the statement, on the real server state)
@@ -259,16 +316,22 @@ def run_scenario(ctx, s):
                                  [p for _, p in g.incoming_files()][:3], "none")
             # ---------------- correspondence with the model
             line, want = None, None
-            if rec["landlords"] is not None and outcome in ("success", "unhappy"):
+
+            def sm_tok(sm, sep=","):
+                return sep.join("%d:%s" % (sh, ".".join(map(str, ps))) for sh, ps in sorted(sm.items())) or "-"
+            new_visible = sorted((i, sh) for sh, srvs in disk.items() for i in srvs if (i, sh) not in pre_present)
+            if rec["landlords"] is not None and rec["alloc"] is not None and outcome in ("success", "unhappy"):
                 enc = encs[-1]
-                sm = rec["servermap"]
-                pre_tok = ",".join("%d:%s" % (sh, ".".join(map(str, ps))) for sh, ps in sorted(sm.items())) or "-"
-                alloc_tok = ",".join("%d:%d" % (sh, p) for sh, p in sorted(rec["landlords"].items())) or "-"
+                if any((p, sh) in pre_present or p in rec["already"].get(sh, ()) for (sh, p) in rec["alloc"]):
+                    ctx.count("server-allocated-a-share-it-already-reported")     # excluded by hypothesis `hdis`
+                pre_tok = sm_tok(rec["already"])
+                alloc_tok = ",".join("%d:%d" % (sh, p) for sh, p in rec["alloc"]) or "-"
                 phases, closes = [], []
                 cur_where = None
-                for (sh, where) in rec["removed"]:
+                for (sh, where, kind) in rec["removed"]:
+                    ctx.count("loss-event:" + ("close-" + kind if where == "close" else "write-phase"))
                     if where == "close":
-                        closes.append("f%d" % sh)
+                        closes.append("%s%d" % (kind, sh))
                         continue
                     if where != cur_where:
                         phases.append([])
@@ -278,17 +341,39 @@ def run_scenario(ctx, s):
                 line = "up %d %s %s %s %s" % (s.happy, pre_tok, alloc_tok, ph_tok, ",".join(closes) or "-")
                 if outcome == "success":
                     final_sm = {sh: sorted(ids[p] for p in ps) for sh, ps in enc.servermap.items()}
-                    want = "success placed=%s sm=%s" % (
-                        ",".join(map(str, sorted(enc.get_shares_placed()))) or "-",
-                        ";".join("%d:%s" % (sh, ".".join(map(str, ps))) for sh, ps in sorted(final_sm.items())) or "-")
+                    ur_sm = {sh: sorted(ids[srv.get_serverid()] for srv in srvs) for sh, srvs in res.get_sharemap().items()}
+                    ur_sv = {ids[srv.get_serverid()]: sorted(shs) for srv, shs in res.get_servermap().items()}
+                    want = {"outcome": "success",
+                            "placed": ",".join(map(str, sorted(enc.get_shares_placed()))) or "-",
+                            "sm": sm_tok(final_sm, ";"), "ursm": sm_tok(ur_sm, ";"), "ursv": sm_tok(ur_sv, ";"),
+                            "pushed": str(res.get_pushed_shares()), "preexisting": str(res.get_preexisting_shares())}
                 else:
-                    want = "unhappy"
+                    want = {"outcome": "unhappy"}
+                want["_new_visible"] = new_visible
+                want["_alloc"] = rec["alloc"]
+            elif rec["alloc"] is not None and rec["landlords"] is None and outcome == "error:AssertionError":
+                # CHKUploader.set_shareholders asserted: one share number in two trackers (DESIGN 8.9)
+                line = "up %d %s %s - -" % (s.happy, sm_tok(rec["already"]),
+                                            ",".join("%d:%d" % (sh, p) for sh, p in rec["alloc"]) or "-")
+                want = {"outcome": "assertion"}
             elif rec["selector_failed"] is not None and outcome == "unhappy":
-                sm = rec["selector_failed"]
-                pre_tok = ",".join("%d:%s" % (sh, ".".join(map(str, ps))) for sh, ps in sorted(sm.items())) or "-"
                 alloc_tok = ",".join("%d:%d" % (sh, p) for sh, p in rec["selector_alloc"]) or "-"
-                line = "up %d %s %s - -" % (s.happy, pre_tok, alloc_tok)
-                want = "unhappy"
+                line = "up %d %s %s - -" % (s.happy, sm_tok(rec["selector_failed"]), alloc_tok)
+                want = {"outcome": "unhappy"}
+            if rec["alloc"] is not None and outcome in ("success", "unhappy"):
+                # the model's input alphabet: every failing remote write/close on a bucket writer reaches the encoder as a
+                # shareholder-loss event (layout._actually_write / close hand the failure back; encode.py's errbacks run
+                # _remove_shareholder).  (More losses than faults is fine: writes overtaken by the abort of `err` fail too.)
+                alloc_srv = {sh: p for sh, p in rec["alloc"]}
+                for i in range(s.num_servers):
+                    if i in s.broken:
+                        continue
+                    nf = sum(1 for (srv, m, n) in fired if srv == i and m in ("write", "close"))
+                    nr = sum(1 for (sh, where, kind) in rec["removed"] if alloc_srv.get(sh) == i)
+                    if nf > nr:
+                        ctx.disagree("a failed remote write/close on a bucket writer did not become a shareholder-loss event at the "
+                                     "encoder (model: every failing call runs _remove_shareholder)", dict(case, server=i),
+                                     "%d failed calls, %d loss events" % (nf, nr), "one loss event per failed call")
             nontrivial = bool(fired or pre_present or outcome != "success" or s.broken or s.readonly or s.full)
             ctx.case(repr(sorted(case.items())) if nontrivial else None)
             ctx.count("outcome:" + outcome)
@@ -299,6 +384,7 @@ def run_scenario(ctx, s):
                 ctx.count("uploads-with-preexisting-shares")
             return case, line, want
         finally:
+            layout.WriteBucketProxy.__init__.__defaults__ = batch_defaults
             g.close()
 
 
@@ -309,7 +395,7 @@ def run(ctx):
         d = {k: v for k, v in ctx.replay["case"].items() if k not in ("fired", "outcome", "server", "shnum", "layout", "incoming")}
         scen = [scenario_from(d)]
     else:
-        scen = [gen_scenario(ctx.rng) for _ in range(ctx.budget(90, 4000))]
+        scen = [gen_scenario(ctx.rng) for _ in range(ctx.budget(300, 4000))]
     lines, wants, cases = [], [], []
     for s in scen:
         case, line, want = run_scenario(ctx, s)
@@ -317,17 +403,34 @@ def run(ctx):
             lines.append(line)
             wants.append(want)
             cases.append(dict(case, line=line))
+            ctx.count("model-line:" + want["outcome"])
     outs = ctx.model(lines)
     if outs is not None:
         for c, w, o in zip(cases, wants, outs):
-            got = o if w.startswith("success") and False else o
-            # compare outcome, placed set and final servermap (closed/aborted bookkeeping is model-internal)
-            if w == "unhappy":
-                ok = o.startswith("unhappy")
-            else:
-                ok = o.startswith(w + " ")
-            if not ok:
-                ctx.disagree("upload decision (outcome, shares placed, final servermap) for the recorded failure script", c, w, o)
+            toks = o.split()
+            got = {"outcome": toks[0] if toks else ""}
+            for t in toks[1:]:
+                k, _, v = t.partition("=")
+                got[k] = v
+            # outcome, shares placed, final servermap, and the UploadResults maps / counters
+            keys = [k for k in w if not k.startswith("_")]
+            if any(got.get(k) != w[k] for k in keys):
+                ctx.disagree("upload decision (outcome, shares placed, final servermap, UploadResults sharemap/servermap/"
+                             "pushed/preexisting) for the recorded failure script", c,
+                             {k: w[k] for k in keys}, {k: got.get(k) for k in keys})
+                continue
+            if "_new_visible" in w:
+                # server side: a share this upload made visible must be one the model lists as possibly visible
+                # (remote close issued) on the server that allocated it, and never one with a missing write
+                unl = lambda v: set() if v in (None, "-") else {int(x) for x in v.split(",")}
+                vis, holes = unl(got.get("vis")), unl(got.get("holes"))
+                alloc = {sh: p for sh, p in w["_alloc"]}
+                for (i, sh) in w["_new_visible"]:
+                    if sh not in vis or alloc.get(sh) != i or sh in holes:
+                        ctx.disagree("a share made visible by this upload is not among the model's possibly-visible, "
+                                     "hole-free bucket writers", c, [i, sh], o)
+                        break
+                ctx.count("model-outcome:" + got["outcome"])
     if cases:
         ctx.sample(cases[0])
     # cross-check of the happiness function handed to the model
